@@ -7,7 +7,7 @@
    stated in full and proved in stages (null struct; canonicalStructSize for every struct; end to
    end for all-default structs); the heap-level induction is open and covered by the run. *)
 From CV Require Import Value.ValueEq Value.CanonSpec Value.CanonProofs Value.CanonProofs2 Value.CanonProofs3
-                       Value.EqualM Value.CanonM Value.EqualProofs Value.CanonMProofs Value.CanonMStruct Value.CanonMWords Value.CanonMData Value.Den.
+                       Value.EqualM Value.CanonM Value.EqualProofs Value.CanonMProofs Value.CanonMStruct Value.CanonMWords Value.CanonMData Value.CanonMHeap Value.CanonMLoop Value.CanonMInd Value.Den.
 From CV Require Import Core.ReaderFacts Core.SafetyProofs Core.ArithFacts.
 Open Scope Z_scope.
 
@@ -107,6 +107,33 @@ Theorem C18_canon_m_data_struct : forall c fx fuel m rl s v,
   exists bs, canonicalize c fx (S fuel) m rl s = (KOk bs, rl) /\ canon v = Some bs.
 Proof. exact canon_m_data_struct. Qed.
 Print Assumptions C18_canon_m_data_struct.
+
+(* ---- the heap-level induction (allocation order = pre-order layout) ---- *)
+(* every allocation on Canonicalize's single segment appends zero bytes at its end *)
+Theorem C18_alloc_seg0 : forall data cap sz m' sid' addr, zlen data mod 8 = 0 -> 0 <= sz ->
+  alloc (seg0 data cap) 0 sz = Ok (m', sid', addr) ->
+  exists cap', m' = seg0 (data ++ repeat 0 (Z.to_nat (padToWord sz))) cap' /\ sid' = 0 /\ addr = zlen data.
+Proof. exact alloc_seg0. Qed.
+Print Assumptions C18_alloc_seg0.
+
+(* SetPtr / PointerList.Set of a pointer to an object of the same segment changes exactly one
+   word, and writes the specification's pointer word (every pointer kind) *)
+Theorem C18_write_ptr_seg0 : forall f data cap src rl a cp,
+  zlen data <= 4294967288 -> 0 <= a -> a mod 8 = 0 -> a + 8 <= zlen data -> cp_shape cp (zlen data) ->
+  write_ptr (S f) true (dstw data cap src rl) 0 a InDst cp false
+  = Ok (dstw (put_word data a (ptr_word cp a)) cap src rl).
+Proof. exact write_ptr_seg0. Qed.
+Print Assumptions C18_write_ptr_seg0.
+
+(* the inductive step for fillCanonicalStruct: if canonicalPtr (fuel f) appends the canonical
+   bytes of each child at the end of the segment and returns its specification pointer word
+   (Q_ptr), then fillCanonicalStruct (fuel f+1) writes the block -- data words, then the
+   children's pointer words -- and appends the children in pointer order, exactly enc_cells
+   (Q_fill); earlier bytes are untouched (set_slots) *)
+Theorem C18_fill_step : forall c fx m, cfg_strict c = true -> msg_ok m ->
+  forall f, Q_ptr c fx m f -> Q_fill c fx m (S f).
+Proof. exact fill_step. Qed.
+Print Assumptions C18_fill_step.
 
 (* groundwork for the heap-level induction: the pointer words the builder model writes (near
    branch of place, tag of NewCompositeList) are the specification's pointer words *)
